@@ -295,6 +295,15 @@ Definition exec_refines (c : cfg) (w : world) (o : op) (r : sres) : Prop :=
   | Fault _ => False
   end.
 
+(** targets of the moves a (nested) sink performs *)
+Fixpoint sink_dsts (sk : sink) : list nat :=
+  match sk with
+  | KPush d | KIns d _ => [d]
+  | KMut k | KLazyDown _ k => sink_dsts k
+  | KLazy _ d k => d :: sink_dsts k
+  | _ => []
+  end.
+
 (** the allocator can serve one more element of vector [vid] (or its capacity is fixed) *)
 Definition adm_vec (c : cfg) (w : world) (vid : nat) : Prop :=
   forall vv, get_vec vid w = Some vv -> can_take c vv 1.
@@ -333,8 +342,7 @@ Definition admissible (c : cfg) (w : world) (o : op) : Prop :=
   | OSplice _ v sb eb _ _ _ n _ _ => adm_splice c w v sb eb n
   | OWithCapacity _ bk n => adm_withcap c bk n
   | OPush _ v _ | OInsert _ v _ _ => adm_vec c w v
-  | OPop _ _ k | ORemove _ _ _ k | OSwapRemove _ _ _ k =>
-      match k with KPush d | KIns d _ => adm_vec c w d | _ => True end
+  | OPop _ _ k | ORemove _ _ _ k | OSwapRemove _ _ _ k => forall d, In d (sink_dsts k) -> adm_vec c w d
   | ONew _ bk | OCloneEmptyIn _ _ bk => bk_wf bk
   | OClone v _ => adm_clone c w v
   | OReserve v n | OReserveExact v n => adm_reserve c w v n
@@ -687,10 +695,319 @@ Definition take_prog (c : cfg) (a : api) (v : nat) (k : tkind) (idx : N) (sk : s
   | Some h => do r <- apply_sink c v (known_of a) h sk; ret (0, r)
   end.
 
+Lemma read_ptr_with_len c p n v u :
+  read_ptr c p (with_len n v, u)
+  = match read_ptr c p (v, u) with
+    | Ok bs _ => Ok bs (with_len n v, u)
+    | Panic q _ => Panic q (with_len n v, u)
+    | Fault f => Fault f
+    end.
+Proof.
+  destruct v as [l cp m g bk].
+  unfold read_ptr, check_range, bind, getv, fault_, ret, with_len.
+  cbv beta iota delta [fst snd vlen vcap vmem vgen vbk].
+  destruct (negb (pgen p =? g)); [reflexivity|].
+  destruct ((N.of_nat (poff p) + N.of_nat (szn c) <=? cp * c_sz c) && (poff p + szn c <=? length m)%nat); reflexivity.
+Qed.
+
+Lemma unwinding_okw {A} (m : M world A) cleanup w a w' : m w = Ok a w' -> unwinding m cleanup w = Ok a w'.
+Proof. intros E. unfold unwinding, on_unwind. rewrite E. reflexivity. Qed.
+
+
+Lemma set_nth_same {A} (n : nat) (x y d : A) : forall l, set_nth n x d (set_nth n y d l) = set_nth n x d l.
+Proof.
+  induction n as [|n IH]; intros l; destruct l as [|z l]; cbn [set_nth]; try reflexivity; f_equal; apply IH.
+Qed.
+Lemma put_put_same v o1 o2 u1 u2 w : put_vec v o2 u2 (put_vec v o1 u1 w) = put_vec v o2 u2 w.
+Proof. unfold put_vec. cbn [wv]. rewrite set_nth_same. reflexivity. Qed.
+
+Lemma write_ptr_with_len c p bs n v u :
+  write_ptr c p bs (with_len n v, u)
+  = match write_ptr c p bs (v, u) with
+    | Ok _ (v', u') => Ok tt (with_len n v', u')
+    | Panic q (v', u') => Panic q (with_len n v', u')
+    | Fault f => Fault f
+    end.
+Proof.
+  destruct v as [l cp m g bk].
+  unfold write_ptr, write_value, check_range, bind, getv, setv, fault_, ret, with_len, with_mem.
+  cbv beta iota delta [fst snd vlen vcap vmem vgen vbk].
+  destruct (negb (pgen p =? g)); [reflexivity|].
+  destruct ((N.of_nat (poff p) + N.of_nat (szn c) <=? cp * c_sz c) && (poff p + szn c <=? length m)%nat); [|reflexivity].
+  destruct (length bs =? szn c)%nat; reflexivity.
+Qed.
+
+(** what is done with the handle of element [i]: the base sinks *)
+Lemma sink_base c w st a vid av k i vv h sk r :
+  cfg_wf c -> WRep c w st -> get_a vid st = Some av -> temp_req k i (a_xs av) ->
+  get_vec vid w = Some vv -> VI c vv av -> temp_for c vv (a_xs av) k i h -> ufuse (wuw w) = None ->
+  (forall d, In d (sink_dsts sk) -> d <> vid -> adm_vec c w d) ->
+  sp_take_elem c st (unext (wuw w)) vid av k i sk = Some r ->
+  match apply_sink c vid (known_of a) h sk (put_vec vid (Some (with_len (N.of_nat i) vv)) (wuw w) w) with
+  | Ok rets w2 => s_out r = 0 /\ s_pk r = 0 /\ s_ret r = rets /\
+                  step_ok c w w2 (s_st r) (s_evs r) (s_nx r - unext (wuw w))
+  | Panic p w2 => s_out r = 2 /\ s_pk r = panic_code p /\ s_ret r = [] /\
+                  step_ok c w w2 (s_st r) (s_evs r) (s_nx r - unext (wuw w))
+  | Fault _ => False
+  end.
+Proof.
+  intros Hwf HW Hg Hreq Hgv HV Hfor Hfuse Hadm Hr.
+  set (xs := a_xs av) in *.
+  unfold sp_take_elem in Hr. cbv zeta in Hr. fold xs in Hr.
+  destruct sk as [| |d|d j| |k0|n0 d0 k0|n0 k0|]; try discriminate.
+  + (* KDrop *)
+    injection Hr as <-.
+    destruct (sink_drop c w st vid av k i vv h HW Hreq HV Hfor Hfuse (known_of a)) as (w2 & E & Hso).
+    rewrite E. cbn [ok_res s_out s_pk s_ret s_st s_evs s_nx].
+    split; [reflexivity|split; [reflexivity|split; [reflexivity|]]]. rewrite N.sub_diag. exact Hso.
+  + (* KDown *)
+    injection Hr as <-.
+    destruct (sink_down c w st vid av k i vv h HW Hreq HV Hfor Hfuse (known_of a)) as (w2 & E & Hso).
+    rewrite E. cbn [ok_res s_out s_pk s_ret s_st s_evs s_nx].
+    split; [reflexivity|split; [reflexivity|split; [reflexivity|]]]. rewrite N.sub_diag. exact Hso.
+  + (* KPush d *)
+    destruct (Nat.eqb_spec d vid) as [|Hne]; [discriminate|].
+    destruct (get_a d st) as [b|] eqn:Hgb; [|discriminate].
+    pose proof (sink_move c w st vid av k i vv h d b Hwf HW Hreq HV Hfor Hfuse Hne Hgb
+                  (Hadm d (or_introl eq_refl) Hne) (known_of a) None) as Hm.
+    cbn [move_sink] in Hm. fold xs in Hm.
+    destruct (put_value c b None (nth i xs 0)) as [ys'|p]; injection Hr as <-.
+    * destruct Hm as (w2 & E & Hso). rewrite E.
+      cbn [ok_res s_out s_pk s_ret s_st s_evs s_nx].
+      split; [reflexivity|split; [reflexivity|split; [reflexivity|]]]. rewrite N.sub_diag. exact Hso.
+    * destruct Hm as (w2 & E & Hso). rewrite E.
+      cbn [panic_res s_out s_pk s_ret s_st s_evs s_nx].
+      split; [reflexivity|split; [reflexivity|split; [reflexivity|]]]. rewrite N.sub_diag. exact Hso.
+  + (* KIns d j *)
+    destruct (Nat.eqb_spec d vid) as [|Hne]; [discriminate|].
+    destruct (get_a d st) as [b|] eqn:Hgb; [|discriminate].
+    pose proof (sink_move c w st vid av k i vv h d b Hwf HW Hreq HV Hfor Hfuse Hne Hgb
+                  (Hadm d (or_introl eq_refl) Hne) (known_of a) (Some j)) as Hm.
+    cbn [move_sink] in Hm. fold xs in Hm.
+    destruct (put_value c b (Some j) (nth i xs 0)) as [ys'|p]; injection Hr as <-.
+    * destruct Hm as (w2 & E & Hso). rewrite E.
+      cbn [ok_res s_out s_pk s_ret s_st s_evs s_nx].
+      split; [reflexivity|split; [reflexivity|split; [reflexivity|]]]. rewrite N.sub_diag. exact Hso.
+    * destruct Hm as (w2 & E & Hso). rewrite E.
+      cbn [panic_res s_out s_pk s_ret s_st s_evs s_nx].
+      split; [reflexivity|split; [reflexivity|split; [reflexivity|]]]. rewrite N.sub_diag. exact Hso.
+  + (* KForget *)
+    injection Hr as <-.
+    destruct (sink_forget c w st vid av k i vv h HW Hreq HV Hfuse (known_of a)) as (E & Hso).
+    rewrite E. cbn [ok_res s_out s_pk s_ret s_st s_evs s_nx].
+    split; [reflexivity|split; [reflexivity|split; [reflexivity|]]]. rewrite N.sub_diag. exact Hso.
+Qed.
+
+Lemma sp_upd_length' i t (xs : list N) : (i < length xs)%nat -> length (sp_upd i t xs) = length xs.
+Proof. exact (upd_length i t xs). Qed.
+
+Lemma get_vec_put_other' v d ov u w : d <> v -> get_vec d (put_vec v ov u w) = get_vec d w.
+Proof.
+  intros Hne. rewrite !get_vec_slot. unfold put_vec. cbn [wv]. rewrite slot_set_nth.
+  destruct (Nat.eqb_spec d v); [contradiction|reflexivity].
+Qed.
+
+Lemma sp_take_elem_nx c st nx v a k i sk r : sp_take_elem c st nx v a k i sk = Some r -> s_nx r = nx.
+Proof.
+  unfold sp_take_elem. cbv zeta. intros H.
+  repeat match type of H with
+  | Some _ = Some _ => injection H as <-
+  | None = Some _ => discriminate H
+  | context [match ?x with _ => _ end] => destruct x eqn:?
+  | context [if ?x then _ else _] => destruct x eqn:?
+  end; reflexivity.
+Qed.
+Lemma sp_sink_nx c : forall sk st nx v a k i r, sp_sink c st nx v a k i sk = Some r -> nx <= s_nx r.
+Proof.
+  induction sk as [| |d|d j| |sk' IH|n0 d0 sk' IH|n0 sk' IH|]; intros st nx v a k i r H; cbn [sp_sink] in H;
+    try (apply sp_take_elem_nx in H; lia).
+  - cbv zeta in H. destruct (sp_sink c _ (nx + 1) v _ k i sk') as [r'|] eqn:E; [|discriminate].
+    apply IH in E. injection H as <-. cbn [s_nx]. lia.
+  - cbv zeta in H. destruct (sp_sink c st (nx + n0) v a k i sk') as [r'|] eqn:E; [|discriminate].
+    apply IH in E. injection H as <-. cbn [s_nx]. lia.
+Qed.
+
+(** [n] times: a lazy clone of the held value is downcast - a new value, destroyed at once *)
+Definition lazy_step (c : cfg) (t : N) (u : uw) : uw :=
+  let id := tok c (unext u) in
+  {| ulog := (if c_dg c then [EDrop id] else []) ++ EClone t id :: ulog u; unext := unext u + 1; ufuse := ufuse u |}.
+Fixpoint lazy_uw (c : cfg) (t : N) (u : uw) (n : nat) : uw :=
+  match n with O => u | S m => lazy_uw c t (lazy_step c t u) m end.
+Lemma lazy_uw_facts c t : forall n u,
+  unext (lazy_uw c t u n) = unext u + N.of_nat n /\ ufuse (lazy_uw c t u n) = ufuse u /\
+  uevents (lazy_uw c t u n)
+  = rev (flat_map (fun id => EClone t id :: drop_ev c id) (next_ids c (unext u) n)) ++ uevents u.
+Proof.
+  induction n as [|n IH]; intros u.
+  - cbn [lazy_uw next_ids seq map flat_map rev app]. split; [lia|]. split; reflexivity.
+  - cbn [lazy_uw]. destruct (IH (lazy_step c t u)) as (H1 & H2 & H3).
+    rewrite H1, H2, H3. unfold lazy_step at 1 2 4. cbn [unext ufuse]. split; [lia|]. split; [reflexivity|].
+    assert (En : next_ids c (unext u) (S n) = tok c (unext u) :: next_ids c (unext u + 1) n).
+    { unfold next_ids. cbn [seq map]. rewrite N.add_0_r. f_equal.
+      rewrite <- seq_shift, map_map. apply map_ext. intros j. f_equal. lia. }
+    rewrite En. cbn [flat_map]. rewrite rev_app_distr. rewrite <- app_assoc. f_equal.
+    unfold uevents, lazy_step, drop_ev. cbn [ulog]. destruct (c_dg c); reflexivity.
+Qed.
+
+(** ... and the sinks that first use the handle (write through it, downcast lazy clones of it) *)
+Lemma sink_spec c a : forall sk w st vid av k i vv h r,
+  cfg_wf c -> WRep c w st -> get_a vid st = Some av -> temp_req k i (a_xs av) ->
+  get_vec vid w = Some vv -> VI c vv av -> temp_for c vv (a_xs av) k i h -> ufuse (wuw w) = None ->
+  (forall d, In d (sink_dsts sk) -> d <> vid -> adm_vec c w d) ->
+  sp_sink c st (unext (wuw w)) vid av k i sk = Some r ->
+  match apply_sink c vid (known_of a) h sk (put_vec vid (Some (with_len (N.of_nat i) vv)) (wuw w) w) with
+  | Ok rets w2 => s_out r = 0 /\ s_pk r = 0 /\ s_ret r = rets /\
+                  step_ok c w w2 (s_st r) (s_evs r) (s_nx r - unext (wuw w))
+  | Panic p w2 => s_out r = 2 /\ s_pk r = panic_code p /\ s_ret r = [] /\
+                  step_ok c w w2 (s_st r) (s_evs r) (s_nx r - unext (wuw w))
+  | Fault _ => False
+  end.
+Proof.
+  induction sk as [| |d|d j| |sk' IH|n0 d0 sk' IH|n0 sk' IH|];
+    intros w st vid av k i vv h r Hwf HW Hg Hreq Hgv HV Hfor Hfuse Hadm Hr;
+    try (cbn [sp_sink] in Hr; exact (sink_base c w st a vid av k i vv h _ r Hwf HW Hg Hreq Hgv HV Hfor Hfuse Hadm Hr)).
+  - (* KMut: a new value is written through the handle first *)
+    cbn [sp_sink] in Hr. cbv zeta in Hr.
+    set (xs := a_xs av) in *. set (t := nth i xs 0) in *.
+    set (n := tok c (unext (wuw w))) in *.
+    set (av' := with_xs av (sp_upd i n xs)) in *.
+    set (st' := set_a vid (Some av') st) in *.
+    destruct (sp_sink c st' (unext (wuw w) + 1) vid av' k i sk') as [r'|] eqn:Er'; [|discriminate].
+    injection Hr as <-.
+    pose proof (vi_rep _ _ _ HV) as HR. fold xs in HR.
+    assert (Hi : (i < length xs)%nat) by (apply Hreq).
+    assert (Ht : tok_ok (szn c) t).
+    { pose proof (rep_tok _ _ _ HR) as Ht. rewrite Forall_forall in Ht. apply Ht. apply nth_In. exact Hi. }
+    set (wl := with_len (N.of_nat i) vv).
+    set (w1 := put_vec vid (Some wl) (wuw w) w).
+    assert (Hg1 : forall u0 w0, get_vec vid (put_vec vid (Some wl) u0 w0) = Some wl) by (intros; apply get_vec_put_same).
+    assert (Ew1 : put_vec vid (Some wl) (wuw w) w1 = w1) by (unfold w1; apply put_put_same).
+    cbn [apply_sink].
+    (* the pointer *)
+    rewrite (bind_ok _ _ _ _ _ (on_vec_ok vid _ w1 wl _ wl (wuw w) (Hg1 _ _) (temp_ptr_ok c vv (wuw w) xs k i h Hfor))).
+    rewrite Ew1.
+    (* the old value *)
+    assert (Er : read_ptr c (ptr_at c vv (N.of_nat i)) (wl, wuw w) = Ok (enc (szn c) t) (wl, wuw w)).
+    { unfold wl. rewrite read_ptr_with_len. rewrite (read_elem c vv (wuw w) xs i HR Hi). reflexivity. }
+    rewrite (bind_ok _ _ _ _ _ (on_vec_ok vid _ w1 wl _ wl (wuw w) (Hg1 _ _) Er)).
+    rewrite Ew1.
+    unfold bind at 1. unfold decode. rewrite (dec_enc _ _ Ht). unfold ret at 1.
+    (* the new value *)
+    unfold bind at 1. unfold freshw at 1. fold n.
+    set (u1 := {| ulog := ulog (wuw w1); unext := unext (wuw w1) + 1; ufuse := ufuse (wuw w1) |}).
+    destruct (write_elem c vv u1 xs i n HR Hi (tok_tok_ok c _)) as (vv' & Ew & HR' & Hl' & Hc' & Hgen' & Hb' & Hm').
+    assert (Ew' : write_ptr c (ptr_at c vv (N.of_nat i)) (enc_c c n) (wl, u1) = Ok tt (with_len (N.of_nat i) vv', u1)).
+    { unfold wl, enc_c. rewrite write_ptr_with_len, Ew. reflexivity. }
+    set (w1c := {| wv := wv w1; wuw := u1 |}).
+    assert (Hg1c : get_vec vid w1c = Some wl) by (apply Hg1).
+    rewrite (bind_ok _ _ _ _ _ (on_vec_ok vid _ w1c wl tt _ u1 Hg1c Ew')).
+    (* the base world of the rest: the vector holds the new value *)
+    set (u2 := if c_dg c then emit (EDrop t) u1 else u1).
+    set (w' := put_vec vid (Some vv') u2 w).
+    assert (Ehd : forall (X : M world (list N)) ,
+              (harness_drop c t;; X) (put_vec vid (Some (with_len (N.of_nat i) vv')) u1 w1c)
+              = X (put_vec vid (Some (with_len (N.of_nat i) vv')) (wuw w') w')).
+    { intros X. unfold bind, harness_drop, w', u2, w1c, w1. destruct (c_dg c); unfold emitw, ret, put_vec; cbn [wuw wv];
+        rewrite ?set_nth_same; reflexivity. }
+    rewrite Ehd.
+    (* the hypotheses for the rest *)
+    assert (HV' : VI c vv' av').
+    { destruct HV as [_ Hbk Hwfb Hcap Hfits]. constructor; cbn [av' with_xs a_bk a_xs]; auto; try congruence.
+      destruct (acap c (a_bk av)); [congruence|exact I]. }
+    assert (HW' : WRep c w' st') by (apply wrep_put; [exact HW|exact HV']).
+    assert (Hg' : get_a vid st' = Some av') by (apply get_a_set_same).
+    assert (Hreq' : temp_req k i (a_xs av')).
+    { cbn [av' with_xs a_xs]. unfold temp_req in *. rewrite sp_upd_length' by exact Hi. exact Hreq. }
+    assert (Hgv' : get_vec vid w' = Some vv') by (apply get_vec_put_same).
+    assert (Hfor' : temp_for c vv' (a_xs av') k i h).
+    { destruct Hfor as (H1 & H2 & H3 & H4). cbn [av' with_xs a_xs]. unfold temp_for.
+      rewrite sp_upd_length' by exact Hi. repeat split; auto. rewrite H4. unfold ptr_at. rewrite Hgen'. reflexivity. }
+    assert (Hfuse' : ufuse (wuw w') = None).
+    { unfold w'. rewrite wuw_put. unfold u2, u1, w1. destruct (c_dg c); cbn [emit ufuse wuw put_vec]; exact Hfuse. }
+    assert (Hnx' : unext (wuw w') = unext (wuw w) + 1).
+    { unfold w'. rewrite wuw_put. unfold u2, u1, w1. destruct (c_dg c); cbn [emit unext wuw put_vec]; reflexivity. }
+    assert (Hadm' : forall d, In d (sink_dsts sk') -> d <> vid -> adm_vec c w' d).
+    { intros d Hin Hne vd Hgd. apply (Hadm d Hin Hne). unfold w' in Hgd. rewrite get_vec_put_other' in Hgd by exact Hne. exact Hgd. }
+    rewrite <- Hnx' in Er'.
+    pose proof (IH w' st' vid av' k i vv' h r' Hwf HW' Hg' Hreq' Hgv' HV' Hfor' Hfuse' Hadm' Er') as Hrest.
+    assert (Hstep : step_ok c w w' st' (drop_ev c t) 1).
+    { constructor; [exact HW'|rewrite Hnx'; reflexivity|exact Hfuse'|].
+      unfold w'. rewrite wuw_put. unfold u2, u1, w1, drop_ev. destruct (c_dg c).
+      - rewrite uevents_emit_user by reflexivity. reflexivity.
+      - reflexivity. }
+    unfold bind. revert Hrest.
+    destruct (apply_sink c vid (known_of a) h sk' (put_vec vid (Some (with_len (N.of_nat i) vv')) (wuw w') w')) as [rets w2|p w2|f];
+      intros Hrest; [| |exact Hrest]; destruct Hrest as (Ho & Hp & Hrt & Hso); unfold ret;
+      cbn [s_out s_pk s_ret s_st s_evs s_nx]; rewrite Ho; cbn [N.eqb];
+      (split; [reflexivity|split; [exact Hp|split; [rewrite Hrt; reflexivity|]]]);
+      replace (s_nx r' - unext (wuw w)) with (1 + (s_nx r' - unext (wuw w'))) by
+        (pose proof (sp_sink_nx _ _ _ _ _ _ _ _ _ Er'); lia);
+      exact (step_ok_trans c w w' w2 st' (s_st r') (drop_ev c t) (s_evs r') 1 _ Hstep Hso).
+  - (* KLazyDown: lazy clones of the held value are downcast first *)
+    cbn [sp_sink] in Hr. cbv zeta in Hr.
+    set (xs := a_xs av) in *. set (t := nth i xs 0) in *.
+    set (cnt := N.to_nat n0) in *.
+    destruct (sp_sink c st (unext (wuw w) + n0) vid av k i sk') as [r'|] eqn:Er'; [|discriminate].
+    injection Hr as <-.
+    pose proof (vi_rep _ _ _ HV) as HR. fold xs in HR.
+    assert (Hi : (i < length xs)%nat) by (apply Hreq).
+    assert (Ht : tok_ok (szn c) t).
+    { pose proof (rep_tok _ _ _ HR) as Ht. rewrite Forall_forall in Ht. apply Ht. apply nth_In. exact Hi. }
+    set (wl := with_len (N.of_nat i) vv).
+    assert (Hld : forall m u, ufuse u = None ->
+              lazy_downs c vid m (on_vec vid (temp_bytes c h)) (put_vec vid (Some wl) u w)
+              = Ok (next_ids c (unext u) m) (put_vec vid (Some wl) (lazy_uw c t u m) w)).
+    { induction m as [|m IHm]; intros u Hfu.
+      - reflexivity.
+      - cbn [lazy_downs lazy_uw].
+        rewrite (bind_ok _ _ _ _ _ (on_vec_ok vid _ _ wl _ wl u (get_vec_put_same _ _ _ _)
+                                       (temp_bytes_spec c vv u xs k i h HR Hreq Hfor))).
+        rewrite put_put_same.
+        unfold lazy_down. unfold bind at 1. unfold bind at 1. unfold decode. fold t. rewrite (dec_enc _ _ Ht). unfold ret at 1.
+        rewrite (bind_ok _ _ _ _ _ (on_vec_ok vid _ _ wl tt wl u (get_vec_put_same _ _ _ _) (user_call_ok wl u Hfu))).
+        rewrite put_put_same.
+        match goal with |- match ?X (put_vec vid (Some wl) u w) with _ => _ end = _ =>
+          assert (Estep : X (put_vec vid (Some wl) u w) = Ok (tok c (unext u)) (put_vec vid (Some wl) (lazy_step c t u) w))
+        end.
+        { unfold bind, freshw, emitw, harness_drop, ret, lazy_step, put_vec, tok. cbn [wuw wv ulog unext ufuse emit].
+          destruct (c_dg c); cbn [app]; reflexivity. }
+        rewrite Estep.
+        rewrite (bind_ok _ _ _ _ _ (IHm (lazy_step c t u) Hfu)). unfold ret.
+        assert (En : next_ids c (unext u) (S m) = tok c (unext u) :: next_ids c (unext u + 1) m).
+        { unfold next_ids. cbn [seq map]. rewrite N.add_0_r. f_equal.
+          rewrite <- seq_shift, map_map. apply map_ext. intros j. f_equal. lia. }
+        rewrite En. reflexivity. }
+    cbn [apply_sink]. fold cnt.
+    rewrite (bind_ok _ _ _ _ _ (unwinding_okw _ _ _ _ _ (Hld cnt (wuw w) Hfuse))).
+    destruct (lazy_uw_facts c t cnt (wuw w)) as (Hn1 & Hf1 & He1).
+    set (u' := lazy_uw c t (wuw w) cnt) in *.
+    set (w' := put_vec vid (Some vv) u' w).
+    assert (Ealive : put_vec vid (Some wl) u' w = put_vec vid (Some wl) (wuw w') w') by (unfold w'; rewrite put_put_same; reflexivity).
+    rewrite Ealive.
+    assert (HW' : WRep c w' st) by (apply (wrep_put_same c w st vid vv av); assumption).
+    assert (Hgv' : get_vec vid w' = Some vv) by (apply get_vec_put_same).
+    assert (Hfuse' : ufuse (wuw w') = None) by (unfold w'; rewrite wuw_put, Hf1; exact Hfuse).
+    assert (Hnx' : unext (wuw w') = unext (wuw w) + n0) by (unfold w'; rewrite wuw_put, Hn1; unfold cnt; lia).
+    assert (Hadm' : forall d, In d (sink_dsts sk') -> d <> vid -> adm_vec c w' d).
+    { intros d Hin Hne vd Hgd. apply (Hadm d Hin Hne). unfold w' in Hgd. rewrite get_vec_put_other' in Hgd by exact Hne. exact Hgd. }
+    rewrite <- Hnx' in Er'.
+    pose proof (IH w' st vid av k i vv h r' Hwf HW' Hg Hreq Hgv' HV Hfor Hfuse' Hadm' Er') as Hrest.
+    assert (Hstep : step_ok c w w' st (flat_map (fun id => EClone t id :: drop_ev c id) (next_ids c (unext (wuw w)) cnt)) n0).
+    { constructor; [exact HW'|exact Hnx'|exact Hfuse'|]. unfold w'. rewrite wuw_put. exact He1. }
+    unfold bind. fold wl in Hrest. revert Hrest.
+    destruct (apply_sink c vid (known_of a) h sk' (put_vec vid (Some wl) (wuw w') w')) as [rets w2|p w2|f];
+      intros Hrest; [| |exact Hrest]; destruct Hrest as (Ho & Hp & Hrt & Hso); unfold ret;
+      cbn [s_out s_pk s_ret s_st s_evs s_nx]; rewrite Ho; cbn [N.eqb];
+      (split; [reflexivity|split; [exact Hp|split; [rewrite Hrt; reflexivity|]]]);
+      replace (s_nx r' - unext (wuw w)) with (n0 + (s_nx r' - unext (wuw w'))) by
+        (pose proof (sp_sink_nx _ _ _ _ _ _ _ _ _ Er'); lia);
+      exact (step_ok_trans c w w' w2 st (s_st r') _ (s_evs r') n0 _ Hstep Hso).
+Qed.
+
 Lemma exec_take c w st a vid k idx sk r :
   cfg_wf c -> WRep c w st -> ufuse (wuw w) = None ->
   (k = TPop -> idx = 0) ->
-  match sk with KPush d | KIns d _ => adm_vec c w d | _ => True end ->
+  (forall d, In d (sink_dsts sk) -> adm_vec c w d) ->
   sp_take c st (unext (wuw w)) vid k idx sk = Some r ->
   res_matches c w (take_prog c a vid k idx sk w) r.
 Proof.
@@ -715,15 +1032,14 @@ Proof.
   - (* pop on an empty vector *)
     subst k. rewrite (Hpop eq_refl) in *. rewrite Hx in Hr. cbn [length Nat.eqb] in Hr.
     unfold bind. rewrite (temp_open_pop_empty c w st vid av HW Hg Hx). unfold ret.
-    assert (Hr' : r = none_res st (unext (wuw w))) by (destruct sk; congruence).
+    assert (Hr' : r = none_res st (unext (wuw w))) by congruence.
     subst r. cbn [res_matches none_res s_out s_pk s_ret s_st s_evs s_nx].
     split; [reflexivity|split; [reflexivity|split; [reflexivity|]]].
     rewrite N.sub_diag. apply step_ok_refl; assumption.
   - (* index out of range *)
     unfold bind. rewrite (temp_open_oob c w st vid av k idx HW Hg Hk Hoob).
     assert (Hr' : r = panic_res PIndex [] st (unext (wuw w))).
-    { destruct k; [congruence| |]; destruct (N.ltb_spec idx (N.of_nat (length xs))) as [Hlt|_]; try lia;
-        destruct sk; congruence. }
+    { destruct k; [congruence| |]; destruct (N.ltb_spec idx (N.of_nat (length xs))) as [Hlt|_]; try lia; congruence. }
     subst r. cbn [res_matches panic_res s_out s_pk s_ret s_st s_evs s_nx].
     split; [reflexivity|split; [reflexivity|split; [reflexivity|]]].
     rewrite N.sub_diag. apply step_ok_refl; assumption.
@@ -741,52 +1057,12 @@ Proof.
         destruct (N.ltb_spec (N.of_nat i) (N.of_nat (length xs))); [reflexivity|lia].
       - rewrite (Hirm ltac:(discriminate)). rewrite (Hidx ltac:(discriminate)).
         destruct (N.ltb_spec (N.of_nat i) (N.of_nat (length xs))); [reflexivity|lia]. }
-    rewrite Hsel in Hr. clear Hsel. unfold sp_take_elem in Hr. cbv zeta in Hr. fold xs in Hr.
-    destruct sk as [| |d|d j| |k0|n0 d0 k0|n0 k0|]; try discriminate.
-    + (* KDrop *)
-      injection Hr as <-.
-      destruct (sink_drop c w st vid av k i vv h HW Hreq HV Hfor Hfuse (known_of a)) as (w2 & E & Hso).
-      unfold bind. rewrite E. unfold ret.
-      cbn [res_matches ok_res s_out s_pk s_ret s_st s_evs s_nx].
-      split; [reflexivity|split; [reflexivity|split; [reflexivity|]]]. rewrite N.sub_diag. exact Hso.
-    + (* KDown *)
-      injection Hr as <-.
-      destruct (sink_down c w st vid av k i vv h HW Hreq HV Hfor Hfuse (known_of a)) as (w2 & E & Hso).
-      unfold bind. rewrite E. unfold ret.
-      cbn [res_matches ok_res s_out s_pk s_ret s_st s_evs s_nx].
-      split; [reflexivity|split; [reflexivity|split; [reflexivity|]]]. rewrite N.sub_diag. exact Hso.
-    + (* KPush d *)
-      destruct (Nat.eqb_spec d vid) as [|Hne]; [discriminate|].
-      destruct (get_a d st) as [b|] eqn:Hgb; [|discriminate].
-      pose proof (sink_move c w st vid av k i vv h d b Hwf HW Hreq HV Hfor Hfuse Hne Hgb Hadm
-                    (known_of a) None) as Hm.
-      cbn [move_sink] in Hm. fold xs in Hm.
-      destruct (put_value c b None (nth i xs 0)) as [ys'|p]; injection Hr as <-.
-      * destruct Hm as (w2 & E & Hso). unfold bind. rewrite E. unfold ret.
-        cbn [res_matches ok_res s_out s_pk s_ret s_st s_evs s_nx].
-        split; [reflexivity|split; [reflexivity|split; [reflexivity|]]]. rewrite N.sub_diag. exact Hso.
-      * destruct Hm as (w2 & E & Hso). unfold bind. rewrite E.
-        cbn [res_matches panic_res s_out s_pk s_ret s_st s_evs s_nx].
-        split; [reflexivity|split; [reflexivity|split; [reflexivity|]]]. rewrite N.sub_diag. exact Hso.
-    + (* KIns d j *)
-      destruct (Nat.eqb_spec d vid) as [|Hne]; [discriminate|].
-      destruct (get_a d st) as [b|] eqn:Hgb; [|discriminate].
-      pose proof (sink_move c w st vid av k i vv h d b Hwf HW Hreq HV Hfor Hfuse Hne Hgb Hadm
-                    (known_of a) (Some j)) as Hm.
-      cbn [move_sink] in Hm. fold xs in Hm.
-      destruct (put_value c b (Some j) (nth i xs 0)) as [ys'|p]; injection Hr as <-.
-      * destruct Hm as (w2 & E & Hso). unfold bind. rewrite E. unfold ret.
-        cbn [res_matches ok_res s_out s_pk s_ret s_st s_evs s_nx].
-        split; [reflexivity|split; [reflexivity|split; [reflexivity|]]]. rewrite N.sub_diag. exact Hso.
-      * destruct Hm as (w2 & E & Hso). unfold bind. rewrite E.
-        cbn [res_matches panic_res s_out s_pk s_ret s_st s_evs s_nx].
-        split; [reflexivity|split; [reflexivity|split; [reflexivity|]]]. rewrite N.sub_diag. exact Hso.
-    + (* KForget *)
-      injection Hr as <-.
-      destruct (sink_forget c w st vid av k i vv h HW Hreq HV Hfuse (known_of a)) as (E & Hso).
-      unfold bind. rewrite E. unfold ret.
-      cbn [res_matches ok_res s_out s_pk s_ret s_st s_evs s_nx].
-      split; [reflexivity|split; [reflexivity|split; [reflexivity|]]]. rewrite N.sub_diag. exact Hso.
+    rewrite Hsel in Hr. clear Hsel.
+    pose proof (sink_spec c a sk w st vid av k i vv h r Hwf HW Hg Hreq Hgv HV Hfor Hfuse
+                  (fun d Hin _ => Hadm d Hin) Hr) as Hm.
+    unfold bind.
+    destruct (apply_sink c vid (known_of a) h sk (put_vec vid (Some (with_len (N.of_nat i) vv)) (wuw w) w)) as [rets w2|p w2|f];
+      [| |exact Hm]; destruct Hm as (Ho & Hp & Hrt & Hso); unfold ret; cbn [res_matches]; auto.
 Qed.
 
 (** dropping a vector: the elements are destroyed in order, then the storage is released *)
@@ -876,20 +1152,6 @@ Proof.
     rewrite firstn_all2 in Hsplit by (rewrite skipn_length; lia). exact Hsplit.
 Qed.
 
-Lemma read_ptr_with_len c p n v u :
-  read_ptr c p (with_len n v, u)
-  = match read_ptr c p (v, u) with
-    | Ok bs _ => Ok bs (with_len n v, u)
-    | Panic q _ => Panic q (with_len n v, u)
-    | Fault f => Fault f
-    end.
-Proof.
-  destruct v as [l cp m g bk].
-  unfold read_ptr, check_range, bind, getv, fault_, ret, with_len.
-  cbv beta iota delta [fst snd vlen vcap vmem vgen vbk].
-  destruct (negb (pgen p =? g)); [reflexivity|].
-  destruct ((N.of_nat (poff p) + N.of_nat (szn c) <=? cp * c_sz c) && (poff p + szn c <=? length m)%nat); reflexivity.
-Qed.
 
 Lemma rep_held_one c v xs idx :
   Rep c v xs -> (idx < length xs)%nat -> Held c v idx [nth idx xs 0].
@@ -901,8 +1163,6 @@ Proof.
   rewrite Ha, Nat.add_0_l in H1. exact (proj1 H1).
 Qed.
 
-Lemma unwinding_okw {A} (m : M world A) cleanup w a w' : m w = Ok a w' -> unwinding m cleanup w = Ok a w'.
-Proof. intros E. unfold unwinding, on_unwind. rewrite E. reflexivity. Qed.
 
 Lemma cur_next_nat i j :
   cur_next {| ci := N.of_nat i; ce := N.of_nat j |}
